@@ -506,7 +506,37 @@ def covers_suite(ctx):
                     % (cases[idx][0], cases[idx][2][:600], model_out[:600]), inputs=cases[idx][0], failing_input_found=False)
 
 
+def probe_f9():
+    """known finding F9: sage_feasibility of a posynomial raises IndexError (a Problem without Variables cannot be compiled).  Returns 'raises' when the
+    listed failure is reproduced, 'ok' when the call succeeds with a certificate, otherwise a description of some OTHER behaviour (a violation)"""
+    import sageopt as so
+    from sageopt.relaxations import sage_sigs as ss
+    y = so.standard_sig_monomials(2)
+    with warnings.catch_warnings():
+        warnings.simplefilter('ignore')
+        try:
+            st, val = ss.sage_feasibility(y[0] + y[1] + 1.0, None).solve(verbose=False)
+        except IndexError:
+            return 'raises'
+        except Exception as e:
+            return 'sage_feasibility(exp(x0) + exp(x1) + 1) raised %r' % (e,)
+    if st == 'solved' and val > -np.inf:
+        return 'ok'
+    return 'sage_feasibility(exp(x0) + exp(x1) + 1) reports (%s, %r): a posynomial with minimum > 0 is SAGE' % (st, val)
+
+
 def run(ctx):
+    kf9 = [f for f in vlib.load_known_findings().get('findings', []) if f.get('id') == 'F9']
+    r9 = probe_f9()
+    ctx.evaluations += 1
+    if r9 == 'raises':
+        if kf9:
+            ctx.known_hits.append(kf9[0]['line'])
+        else:
+            ctx.problem('oracle', 'property fails on the implementation: sage_feasibility of the posynomial exp(x0) + exp(x1) + 1 raises IndexError instead of succeeding',
+                        inputs={'suite': 'posynomial_feasibility'}, failing_input_found=True)
+    elif r9 != 'ok':
+        ctx.problem('oracle', 'property fails on the implementation: ' + r9, inputs={'suite': 'posynomial_feasibility'}, failing_input_found=True)
     covers_suite(ctx)
     for name, f, reps in (('directed', oracle_directed, 1), ('full_covers_box', oracle_full_covers_box, 1), ('uncovered_positive_term', oracle_uncovered_positive_term, 1), ('box_as_norms', oracle_box_as_norms, 1), ('circuit', oracle_circuit, ctx.n(4, 30)), ('one_negative_box', oracle_one_negative_box, ctx.n(6, 60)),
                           ('conditional', oracle_conditional, ctx.n(40, 300))):
